@@ -49,6 +49,7 @@ structure PayRec where
   amtIn : Nat
   amtOut : Nat
   result : String := ""
+  inv : String := ""
 
 structure EndRec where
   name : String
@@ -116,6 +117,8 @@ structure St where
   crashKinds : List (String × Nat) := []
   failsUnacked : Nat := 0
   wireErr : Nat := 0
+  /-- inconclusive cases other than the tamper cases (which end with a failed link by design). -/
+  inconclOther : Nat := 0
   settledPairs : Nat := 0
   failedPairs : Nat := 0
   kinds : List (String × Nat) := []
@@ -286,7 +289,8 @@ def wireStep (s : St) (ws : List String) : IO St := do
   | "rev" =>
     if fromBob then feedAll s ch .upRevBob .downRevBob s!"revoke_and_ack Bob {ch}"
     else feedAll s ch .upRevPeer .downRevPeer s!"revoke_and_ack peer {ch}"
-  | "reest" | "ready" | "err" => return s
+  | "reest" | "ready" => return s
+  | "err" => return { s with wireErr := s.wireErr + 1 }
   | "fee" => return s
   | _ => mismatch s s!"unknown wire message type {t}"
 
@@ -387,6 +391,16 @@ def quiescenceChecks (s : St) (dirty : Bool) : IO St := do
       s := { s with checks := s.checks + 1 }
       if settled then
         s ← monitor s "payment_result" s!"pay n={p.n} reported {p.result} but its first-hop htlc was settled"
+    -- receiver side: the invoice is settled iff the last-hop htlc (Bob's outgoing one) was settled
+    if p.inv != "" && p.inv != "unknown" then
+      let lastSettled : Bool := match pr? with
+        | some pr => pr.obs.down.settled
+        | none => false
+      s := { s with checks := s.checks + 1 }
+      if (p.inv == "settled") != lastSettled then
+        s ← monitor s "payment_result" s!"pay n={p.n} receiver invoice is {p.inv} but the last-hop htlc settled={lastSettled}"
+      if p.result.startsWith "ok" && p.inv != "settled" then
+        s ← monitor s "payment_result" s!"pay n={p.n} sender reports success, receiver invoice is {p.inv}"
   return s
 
 def step (s : St) (line : String) : IO St := do
@@ -402,7 +416,7 @@ def step (s : St) (line : String) : IO St := do
                        caseRestarts := 0, caseViol := 0, caseCause := "", misread := [],
                        qStaleShifted := 0, qStalePlain := 0, caseCrashes := 0, caseFlaps := 0, failsUnacked := 0, orphanHalfOpen := [],
                        cases := s.cases + 1, kinds := bump s.kinds kind }
-    if status != "ran" then return { s with inconclSetup := s.inconclSetup + 1 }
+    if status != "ran" then return { s with inconclSetup := s.inconclSetup + 1, inconclOther := s.inconclOther + 1 }
     return s
   | "pay" :: rest =>
     let some n := kvNat? rest "n" | mismatch s "bad pay line"
@@ -468,6 +482,10 @@ def step (s : St) (line : String) : IO St := do
     else if r.startsWith "fail" then return { s with resFail := s.resFail + 1 }
     else if r == "senderr" then return { s with resSendErr := s.resSendErr + 1 }
     else return { s with resNone := s.resNone + 1 }
+  | "inv" :: rest =>
+    let some n := kvNat? rest "n" | mismatch s "bad inv line"
+    let st := (kv? rest "state").getD "?"
+    return { s with pays := s.pays.map (fun (p : PayRec) => if p.n == n then { p with inv := st } else p) }
   | "info" :: _ => return s
   | "note" :: _ => return s
   | "quiesced" :: "=>" :: q :: _ =>
@@ -483,10 +501,12 @@ def step (s : St) (line : String) : IO St := do
         s.pairs.any (fun pr => !pr.dead && !(pr.obs.up.stable && pr.obs.down.stable))
       if inFlight then
         IO.println s!"SAMPLE case={s.caseId} idle but a commitment is owed (not quiescent, inconclusive): {s.qEnds.foldl (fun acc e => acc ++ s!" {e.name}:pending={e.pending}") ""}"
-        return { s with stalled := s.stalled + 1 }
+        return { s with stalled := s.stalled + 1, inconclOther := s.inconclOther + 1 }
       else quiescenceChecks { s with dirty := s.dirty + 1 } true
-    | "linkfailed" => return { s with inconclLinkFailed := s.inconclLinkFailed + 1 }
-    | _ => return { s with inconclTimeout := s.inconclTimeout + 1 }
+    | "linkfailed" =>
+      return { s with inconclLinkFailed := s.inconclLinkFailed + 1,
+                      inconclOther := s.inconclOther + (if s.kind == "tamper" then 0 else 1) }
+    | _ => return { s with inconclTimeout := s.inconclTimeout + 1, inconclOther := s.inconclOther + 1 }
   | ["END"] =>
     if s.samples < 6 && s.status == "ran" then
       let fwd := s.pairs.foldl (fun a p => a + (if p.idDown.isSome then 1 else 0)) 0
@@ -501,6 +521,12 @@ end LndModel.C08.Driver
 open LndModel.C08.Driver in
 def main : IO Unit := do
   let s ← LndModel.Lines.foldStdin step {}
+  -- inconclusive outcomes are never violations, but they must stay rare: a defect that fails
+  -- links or stalls the commitment dance everywhere would otherwise only show in STAT.
+  -- Unchanged tree: 0-3 % (see notes); cap at 12 % (and at least 6 cases).
+  let s ← if s.inconclOther * 100 > s.cases * 12 && s.inconclOther ≥ 6 then
+      mismatch { s with caseId := "-" } s!"too many inconclusive cases: {s.inconclOther} of {s.cases} (timeout={s.inconclTimeout} linkfailed={s.inconclLinkFailed} setup={s.inconclSetup} stalled={s.stalled}, tamper cases excluded)"
+    else pure s
   IO.println s!"STAT lines={s.lines}"
   IO.println s!"STAT cases={s.cases}"
   IO.println s!"STAT evaluations={s.wire}"
@@ -519,6 +545,8 @@ def main : IO Unit := do
   IO.println s!"STAT ungraceful_crashes={s.crashes}"
   for (k, n) in s.crashKinds do IO.println s!"STAT crash_after_{k}={n}"
   IO.println s!"STAT link_flaps={s.flaps}"
+  IO.println s!"STAT wire_error_messages={s.wireErr}"
+  IO.println s!"STAT inconclusive_excluding_tamper={s.inconclOther}"
   IO.println s!"STAT cuts={s.cuts}"
   IO.println s!"STAT result_ok={s.resOk}"
   IO.println s!"STAT result_fail={s.resFail}"
